@@ -114,7 +114,8 @@ def lexical_rule(chk, repo):
     seen_pats = set()
     # every string literal of the function (wherever it is bound or passed: `regex = r"..."`, re.compile(r"..."), ...)
     # that parses as a regex containing identifier-shaped groups
-    for node in walk_no_nested(fi.node):
+    # the whole module is scanned: patterns may be precompiled at module level or live in helper functions
+    for node in ast.walk(repo.tree[FILE]):
         if isinstance(node, ast.Constant) and isinstance(node.value, str) and "[" in node.value and "(" in node.value and node.value not in seen_pats:
             pat = node.value
             seen_pats.add(pat)
